@@ -6,6 +6,7 @@
 import SSJ.Model.Session
 import SSJ.Proofs.TokenOrdering
 import SSJ.Proofs.Profiler
+import SSJ.Proofs.KeyEq
 
 namespace SSJ
 
@@ -261,19 +262,28 @@ theorem validateJoin_eq (mname : String) (a : JoinArgs) (t : TokObj) :
     show _ = ite _ _ _ >>= _
     split_ifs <;> rfl
 
-/-- the boolean key test of `validate_key_attr` -/
+/-- the boolean key test of `validate_key_attr`: `len(table[key].unique()) == len(table)` (values identified under
+    Python equality, `Cell.pyEq`) and no missing key -/
 def keyTest (f : Frame) (k : String) : Bool :=
-  (dedup (f.col k)).length == (f.col k).length && !(f.col k).any Cell.isMissing
+  (Profiler.dedupBy Cell.pyEq (f.col k)).length == (f.col k).length && !(f.col k).any Cell.isMissing
 
-/-- a key column: no duplicates, no missing values -/
+/-- a key column: no two values equal as Python values (`1`, `1.0` and `True` are the same value, `'1'` is another:
+    `PyDistinct`), no missing values -/
 def KeyValid (f : Frame) (k : String) : Prop :=
-  (f.col k).Nodup ∧ ∀ c ∈ f.col k, c.isMissing = false
+  PyDistinct (f.col k) ∧ ∀ c ∈ f.col k, c.isMissing = false
+
+/-- the cells of a key column are pairwise different -/
+theorem KeyValid.nodup {f : Frame} {k : String} (h : KeyValid f k) : (f.col k).Nodup := h.1.nodup
 
 theorem keyTest_iff (f : Frame) (k : String) : keyTest f k = true ↔ KeyValid f k := by
-  unfold keyTest KeyValid
-  simp only [Bool.and_eq_true, beq_iff_eq, Profiler.dedup_length_eq_iff, Bool.not_eq_true',
+  unfold keyTest KeyValid PyDistinct
+  simp only [Bool.and_eq_true, beq_iff_eq, Profiler.dedupBy_length_eq_iff, Bool.not_eq_true',
     List.any_eq_false]
   simp
+
+/-- `validate_key_attr` succeeds exactly on key columns -/
+theorem validateKeyAttr_ok_iff_keyValid (k : String) (f : Frame) : validateKeyAttr k f = .ok () ↔ KeyValid f k :=
+  validateKeyAttr_ok_iff k f
 
 theorem validateOutAndKeys_bind {α : Type} (a : TableArgs) (l r : Frame) (f : Unit → Except PyErr α) :
     (validateOutAndKeys a l r >>= f) =
@@ -538,12 +548,26 @@ theorem validateJoin_key (mname : String) (a : JoinArgs) (t : TokObj) (l r : Fra
   split_ifs with h1 h2 <;> first | rfl | skip
   exfalso; simp at h1 h2; simp [h1, h2] at h
 
-/-- spelled out: the key column has a repeated value, or a missing one -/
+/-- spelled out: the key column has two values that are equal as Python values, or a missing one -/
 theorem not_keyValid_iff (f : Frame) (k : String) :
-    ¬ KeyValid f k ↔ ¬ (f.col k).Nodup ∨ ∃ c ∈ f.col k, c.isMissing = true := by
+    ¬ KeyValid f k ↔ ¬ PyDistinct (f.col k) ∨ ∃ c ∈ f.col k, c.isMissing = true := by
   unfold KeyValid
   rw [not_and_or]
   simp
+
+/-- in particular: the key column has a repeated cell, or a missing one -/
+theorem not_keyValid_of_dup_or_missing (f : Frame) (k : String)
+    (h : ¬ (f.col k).Nodup ∨ ∃ c ∈ f.col k, c.isMissing = true) : ¬ KeyValid f k :=
+  (not_keyValid_iff f k).2 (h.imp_left (fun hn hd => hn hd.nodup))
+
+/-- two positions `i < j` of the key column hold cells that are equal as Python values -/
+theorem not_keyValid_of_pyEq (f : Frame) (k : String) (i j : Nat) (hij : i < j) (hj : j < f.rows.length)
+    (h : ((f.rows.getD i []).cell (f.colIdx k)).pyEq ((f.rows.getD j []).cell (f.colIdx k)) = true) :
+    ¬ KeyValid f k := by
+  intro hk
+  have := validateKeyAttr_pyEq_rejected k f i j hij hj h
+  rw [(validateKeyAttr_ok_iff_keyValid k f).2 hk] at this
+  cases this
 
 /-! ### C15 (rejection): a rejected call never touches the flag -/
 
